@@ -134,6 +134,7 @@ func NewStd(o *kernel.Outcome, tape *kernel.Tape, opt StdOptions) (*World, error
 	w.Store.JWTProfileJWT = cfg.Bool(1, 2)
 	w.Store.PersistScopes = cfg.Bool(1, 2)
 	w.Store.PresetSubject = tape.Sub("cfg-preset-subject").Bool(1, 2)
+	w.Store.TypedNil = tape.Sub("cfg-typed-nil").Bool(1, 2)
 	if !opt.NoCustomClaims && cfg.Bool(1, 2) {
 		// deliberately colliding names: custom data must never replace registered claims
 		w.Store.CustomClaims = map[string]any{"tenant": "t1", "iss": "https://evil.example", "sub": "mallory", "aud": []string{"evil"}, "exp": 1, "azp": "evil"}
